@@ -9,7 +9,9 @@ that was never used is indistinguishable from an absent one, so boxes exist from
 `sync.Pool` of sender nodes: as pinned by the harness (one P, no GC): private slot, then LIFO.
 In `finalizeSender` the statement `if Load(pending) > 0 && active.CAS(false,true)` holds two atomic
 operations; the instrumentation parks twice before it (`Load:pending`, `CAS:active`) and executes
-both in the second step — mirrored here (`j5` is a no-op, `j6` does both).
+both in the second step — mirrored here (`j5` is a no-op, `j6` does both); likewise the re-check
+`if Load(m.length) > 0 && Load(pending) > 0 && active.CAS(false,true)` of Dequeue's nil branch
+(`i2`, `i3` park only, `i4` does all three).
 -/
 import GoaktVerif.Model.C04.Core
 import GoaktVerif.Model.C04.Unbounded
@@ -70,7 +72,10 @@ inductive PC where
   | g4 (h nx : Nat)                         --   `Load:value`
   | g5 (h : Nat) (v : Option Nat)           --   `Store:next` (head.next := nil)
   | g6 (h : Nat) (v : Option Nat)           --   `Store:value` (head.value := nil) [pool.Put]
-  | i1 (k : Nat)                            -- sub-queue looked empty: `Store:active` (false), return nil
+  | i1 (k : Nat)                            -- sub-queue looked empty: `Store:active` (false)
+  | i2 (k : Nat)                            --   `Load:length` (parks only)
+  | i3 (k : Nat)                            --   `Load:pending` (parks only)
+  | i4 (k : Nat)                            --   `CAS:active` [length > 0 && pending > 0 && CAS(false,true)]; return nil
   | j1 (k n : Nat)                          -- `Add:length` (-1)
   | j2 (k n : Nat)                          -- `Add:pending` (-1) → remaining
   | j3 (k n : Nat)                          -- finalizeSender, remaining < 0: `Store:pending` (0)
@@ -92,7 +97,7 @@ def label : PC → String
   | .a1 _ _ _ => "Store:value" | .a2 _ _ _ => "Store:next" | .a3 _ _ _ => "Swap:tail" | .a4 _ _ _ => "Store:next"
   | .g1 => "Load:head" | .g2 _ => "Load:next" | .g3 _ _ => "Store:head" | .g4 _ _ => "Load:value"
   | .g5 _ _ => "Store:next" | .g6 _ _ => "Store:value"
-  | .i1 _ => "Store:active"
+  | .i1 _ => "Store:active" | .i2 _ => "Load:length" | .i3 _ => "Load:pending" | .i4 _ => "CAS:active"
   | .j1 _ _ => "Add:length" | .j2 _ _ => "Add:pending" | .j3 _ _ => "Store:pending"
   | .j4 _ _ => "Store:active" | .j5 _ _ => "Load:pending" | .j6 _ _ => "CAS:active"
   | .l1 _ => "Load:length"
@@ -135,7 +140,13 @@ def exec (s : Sh) : PC → Sh × Next PC
     match v with
     | none => (s', .ret .none)
     | some k => (s', .goto (.ub k .deq1))
-  | .i1 k => (s.updBox k fun b => { b with active := false }, .ret .none)
+  | .i1 k => (s.updBox k fun b => { b with active := false }, .goto (.i2 k))
+  | .i2 k => (s, .goto (.i3 k))
+  | .i3 k => (s, .goto (.i4 k))
+  | .i4 k =>
+    if s.length > 0 && (s.boxes k).pending > 0 && (s.boxes k).active = false then
+      activate (s.updBox k fun b => { b with active := true }) k .none
+    else (s, .ret .none)
   | .j1 k n => ({ s with length := s.length - 1 }, .goto (.j2 k n))
   | .j2 k n =>
     let rem := (s.boxes k).pending - 1
